@@ -3,6 +3,7 @@ from __future__ import annotations
 
 import itertools
 import math
+import operator
 
 import numpy as np
 from hypothesis import strategies as st
@@ -20,7 +21,8 @@ RULE = (
     "a random input array with explicit, mostly irregular chunks (other inputs joined by binary ops / concatenate get their own chunkings). "
     "Operations: elementwise (unary, scalar, astype, where, binary with re-chunked / broadcast operands), basic and list indexing, "
     "reductions and cumsum (axis, keepdims, split_every), reshape, transpose, concatenate/stack, rechunk, flip/roll/repeat/pad/take/diff/"
-    "tril/squeeze/expand_dims/broadcast_to, map_blocks, map_overlap, coarsen, isin, and as data-dependent steps boolean-mask indexing and "
+    "tril/squeeze/expand_dims/broadcast_to, map_blocks (one array; and a NumPy-broadcasting binary function over two block-compatible arrays, "
+    "either of which may be the length-1 broadcast one on an axis, no chunks= given), map_overlap, coarsen, isin, and as data-dependent steps boolean-mask indexing and "
     "unique. The generator replays each step on NumPy to keep every step valid. Oracle, applied to EVERY prefix of the pipeline: computed "
     "shape/dtype equal lazy .shape/.dtype; chunks are ints adding up to the shape; every block computed on its own via x.blocks[idx] and "
     "via x.to_delayed()[idx] has shape tuple(chunks[d][idx[d]]) and the lazy dtype; blocks placed by index reassemble x.compute(); "
@@ -45,7 +47,7 @@ ASSUMPTIONS = [
 TECHNIQUE = "Hypothesis-generated typed operation pipelines plus exhaustive chunkings of small shapes; metamorphic check of per-block results against declared chunks and the full result"
 
 UNKNOWN_OPS = {"mask", "unique"}
-STRUCTURAL = {"ew_out", "getitem", "reshape", "concat", "stack", "reduce", "rechunk", "binop", "repeat", "pad", "take", "diff", "coarsen", "mask", "roll", "broadcast", "expand", "squeeze", "map_overlap", "unique", "cum"}
+STRUCTURAL = {"ew_out", "getitem", "reshape", "concat", "stack", "reduce", "rechunk", "binop", "repeat", "pad", "take", "diff", "coarsen", "mask", "roll", "broadcast", "expand", "squeeze", "map_overlap", "unique", "cum", "map_blocks_bin"}
 
 
 # --------------------------------------------------------------------------
@@ -70,6 +72,39 @@ def decode_index(index):
 
 def _double(b):
     return b * 2
+
+
+def mbb_operands(x, y):
+    """The dask operands of a map_blocks_bin step, made block-compatible (map_blocks aligns blocks by position, it does not align
+    chunks): axes are matched from the right; where y is as long as x it takes x's chunks, where y has length 1 it is one block
+    (broadcast to every block of x), where x has length 1 and y is longer x is one block and y keeps its OWN chunking.  Both are
+    value-preserving rechunks.  Returns (x', y')."""
+    off = x.ndim - y.ndim
+    tgt, xfix = [], {}
+    for j, n in enumerate(y.shape):
+        d = off + j
+        if n == x.shape[d]:
+            tgt.append(x.chunks[d])
+        elif n == 1:
+            tgt.append((1,))
+        else:  # x.shape[d] == 1 < n
+            tgt.append(y.chunks[j])
+            if len(x.chunks[d]) > 1:
+                xfix[d] = -1
+    if xfix:
+        x = x.rechunk(xfix)
+    if tuple(tgt) != y.chunks:
+        y = y.rechunk(tuple(tgt))
+    return x, y
+
+
+def mbb_bcast_first_tie(a, b):
+    """map_blocks(f, a, b): some axis (matched from the right) where both operands have ONE block, the first has length 1 and the
+    other is longer -- the numbers of blocks tie, so the chunk inference has to look at the lengths to see which one is broadcast."""
+    for ca, cb in zip(a.chunks[::-1], b.chunks[::-1]):
+        if len(ca) == 1 and len(cb) == 1 and ca[0] == 1 and cb[0] > 1:
+            return True
+    return False
 
 
 def _np_coarsen(x, axis, k):
@@ -163,6 +198,13 @@ def step(lib, x, s, inputs, is_da):
         return lib.tril(x, s["k"])
     if op == "map_blocks":
         return x.map_blocks(_double, dtype=x.dtype) if is_da else x * 2
+    if op == "map_blocks_bin":
+        # a NumPy-broadcasting binary function mapped over the blocks of TWO arrays (no chunks=: the block structure is inferred)
+        y = inputs[s["input"]]
+        if not is_da:
+            return y + x if s.get("swap") else x + y
+        x, y = mbb_operands(x, y)
+        return lib.map_blocks(operator.add, y, x) if s.get("swap") else lib.map_blocks(operator.add, x, y)
     if op == "map_overlap":
         if is_da:
             return x.map_overlap(_double, depth=s["depth"], boundary=s["boundary"], dtype=x.dtype)
@@ -284,6 +326,11 @@ def check(case):
         sig["len1_axis_zero_chunk"] = any(n == 1 and len(c) > 1 for o in operands for n, c in zip(o.shape, o.chunks))
         # an operand has a zero-size chunk on an axis with several chunks, whether given explicitly or left behind by a strided slice
         sig["zero_chunk_in"] = any(C.known_chunks(o.chunks) and A.has_zero_chunk(o.chunks) for o in operands)
+        if s["op"] == "map_blocks_bin":
+            # the first argument is the length-1 (broadcast) one on an axis where both arguments have a single block
+            with impl(f"step {k} {s} (operands)", **sig):
+                pair = mbb_operands(r, inputs_da[s["input"]])
+            sig["bcast_first_tie"] = mbb_bcast_first_tie(*(pair[::-1] if s.get("swap") else pair))
         done.append(s["op"])
         with impl(f"step {k} {s}", **sig), np.errstate(all="ignore"):
             r = step(da, r, s, inputs_da, True)
@@ -337,7 +384,7 @@ def draw_step(draw, x, inputs, unknown, zc=False):
         return {"op": "reduce", "f": draw(st.sampled_from(["sum", "max"] if x.size else ["sum"])), "axis": None, "keepdims": False}
     if zc or x.size == 0:
         return draw(draw_plain_step(x, inputs, zc))
-    menu = ["ew", "ew", "ew_out", "binop", "getitem", "getitem", "reduce", "reduce", "rechunk", "transpose", "concat", "stack", "map_blocks", "flip", "expand", "broadcast"]
+    menu = ["ew", "ew", "ew_out", "binop", "getitem", "getitem", "reduce", "reduce", "rechunk", "transpose", "concat", "stack", "map_blocks", "flip", "expand", "broadcast", "map_blocks_bin"]
     if nd >= 1:
         menu += ["reshape", "reshape", "take", "roll", "repeat", "pad", "cum", "coarsen"]
     if numeric and nd >= 1 and x.size:
@@ -475,6 +522,18 @@ def draw_step(draw, x, inputs, unknown, zc=False):
         if x.dtype.kind == "b":
             return {"op": "ew", "f": "astype_i8"}
         return {"op": "map_blocks"}
+    if op == "map_blocks_bin":
+        # second operand: the trailing 1..nd axes of x, each as long as x's or of length 1 (broadcast); where x itself has length 1
+        # the operand may be LONGER (then x is the broadcast one) and carries its own chunking there
+        k = draw(st.integers(1, nd)) if nd else 0
+        shp = []
+        for n in x.shape[nd - k :]:
+            if n == 1:
+                shp.append(draw(st.sampled_from([1, 2, 3, 4])))
+            else:
+                shp.append(n if draw(st.integers(0, 2)) else 1)
+        inputs.append(draw(C.arr(shape=shp, dtypes=("i8", "f8"), zero_p=0.0)))
+        return {"op": "map_blocks_bin", "input": len(inputs) - 1, "swap": draw(st.booleans())}
     if op == "map_overlap":
         return {"op": "map_overlap", "depth": 1, "boundary": draw(st.sampled_from(["reflect", "none", "periodic", "nearest", 0]))}
     if op == "coarsen":
@@ -612,6 +671,14 @@ def enum_cases(tier):
             for j, p in enumerate(pipes):
                 arr = {"shape": shape, "dtype": "i8" if (i + j) % 2 else "f8", "seed": (i * 31 + j) % 97, "fill": "small", "chunks": ch}
                 yield {"inputs": [arr], "steps": p}
+            # map_blocks of a broadcasting binary function over two arrays: the second one is broadcast along axis 0 / the first
+            # one is (after x[:1]) and the second brings this chunking of axis 0; either argument order
+            arr = {"shape": shape, "dtype": "i8", "seed": i % 97, "fill": "small", "chunks": ch}
+            row = {"shape": [1] + shape[1:], "dtype": "f8", "seed": (i + 1) % 97, "fill": "small", "chunks": [[1]] + [[n] for n in shape[1:]]}
+            full = {"shape": shape, "dtype": "f8", "seed": (i + 2) % 97, "fill": "small", "chunks": [list(ch[0])] + [[n] for n in shape[1:]]}
+            for swap in (False, True):
+                yield {"inputs": [arr, row], "steps": [{"op": "map_blocks_bin", "input": 1, "swap": swap}]}
+                yield {"inputs": [arr, full], "steps": [{"op": "getitem", "index": [{"slice": [None, 1, None]}]}, {"op": "map_blocks_bin", "input": 1, "swap": swap}]}
 
 
 SUBCHECKS = [
